@@ -158,12 +158,15 @@ const BF_LONG_PATTERNS: &[&str] = &[
     "||media.example.net/player/v1/assets/bundle.js", "||media.example.net/player/v2/assets/bundle.js", "||nedia.example.net/player/v1/assets/bundle.js",
     "@@||ads.tracking-platform.com^", "@@||cdn.tracking-platform.com^", "@@/static/banners/slot1/leaderboard.png", "@@/static/banners/slot2/leaderboard.png",
     "@@||media.example.net/player/v1/assets/bundle.js", "@@||media.example.net/player/v2/assets/bundle.js",
+    // non-ASCII pattern text (a rule and its twin are the same text, however it is digested)
+    "/\u{440}\u{435}\u{43a}/\u{431}\u{430}\u{43d}", "/\u{440}\u{435}\u{43a}/\u{431}\u{430}\u{43c}", "@@/\u{440}\u{435}\u{43a}/\u{431}\u{430}\u{43d}", "||ads.tracking-platform.com/caf\u{e9}",
 ];
 const BF_LONG_OPTIONS: &[&str] = &["", "script", "third-party"];
 const BF_LONG_URLS: &[&str] = &[
     "https://ads.tracking-platform.com/x", "https://cdn.tracking-platform.com/x", "https://tracking-platform.com/x", "https://pixel.tracking-platform.com/x", "https://bds.tracking-platform.com/x",
     "https://x.com/static/banners/slot1/leaderboard.png", "https://x.com/static/banners/slot2/leaderboard.png", "https://x.com/ttatic/banners/slot1/leaderboard.png",
     "https://media.example.net/player/v1/assets/bundle.js", "https://media.example.net/player/v2/assets/bundle.js", "https://nedia.example.net/player/v1/assets/bundle.js",
+    "https://x.com/\u{440}\u{435}\u{43a}/\u{431}\u{430}\u{43d}.png", "https://x.com/\u{440}\u{435}\u{43a}/\u{431}\u{430}\u{43c}.png", "https://ads.tracking-platform.com/caf\u{e9}",
 ];
 
 // option cube: one option set per distinguishing feature of a rule (every request type, the two
